@@ -23,6 +23,8 @@ type Ctx struct {
 	O     *core.Origins
 	Tier  string
 	reach map[*ssa.Function]*core.Reach
+	tplS  *tplState
+	hookTally, asgTally *tally
 }
 
 // NewCtx creates a rule context.
